@@ -33,12 +33,16 @@ impl Styles {
         None
     }
     fn get_num_fmt_index(&self, format_code: &str) -> Option<i32> {
-        if let Some(index) = get_default_num_fmt_id(format_code) {
-            return Some(index);
-        }
+        // The workbook's own table comes first: that is how an id is read back (`get_num_fmt`)
         for item in self.num_fmts.iter() {
             if item.format_code == format_code {
                 return Some(item.num_fmt_id);
+            }
+        }
+        if let Some(index) = get_default_num_fmt_id(format_code) {
+            // a built-in id the workbook redefines reads back as the workbook's code
+            if !self.num_fmts.iter().any(|item| item.num_fmt_id == index) {
+                return Some(index);
             }
         }
         None
